@@ -157,9 +157,81 @@ func wideSession(r *rand.Rand, k routerKnobs, emit Emit) {
 	}
 }
 
+// deepFamilySession: a family of routes sharing a LONG prefix of bind segments (1..7 of them) that diverge into
+// sibling subtrees of different styles, followed by probe registrations that reuse a bind name of an ancestor
+// (must be refused), the sibling's own name (refused) and the OTHER sibling's name (a different path of the
+// tree: must be accepted) — per-node bookkeeping about "the binds above me" is exercised at every depth.
+func deepFamilySession(r *rand.Rand, k routerKnobs, emit Emit) {
+	emit("NEW router")
+	L := 1 + r.Intn(7)
+	var pre []string  // segment texts of the shared prefix
+	var inst []string // one request segment per prefix segment
+	var names []string
+	for i := 0; i < L; i++ {
+		n := fmt.Sprintf("n%d", i)
+		switch c := r.Intn(10); {
+		case c < 6:
+			pre, names = append(pre, "{"+n+"}"), append(names, n)
+		case c < 9:
+			pre, names = append(pre, "{"+n+": /[0-9a-z]+/}"), append(names, n)
+		default:
+			pre = append(pre, "s"+n)
+		}
+		inst = append(inst, fmt.Sprintf("v%d", i))
+		if strings.HasPrefix(pre[i], "s") {
+			inst[i] = pre[i]
+		}
+	}
+	prefix := "/" + strings.Join(pre, "/")
+	type sib struct{ seg, name, inst string }
+	all := []sib{{"{dir}", "dir", "src"}, {"{rev: /[0-9a-f]+/}", "rev", "7f"}, {"lit", "", "lit"}, {"{rest: **}", "rest", "a/b"},
+		{"x-{tag}", "tag", "x-1"}}
+	r.Shuffle(len(all), func(i, j int) { all[i], all[j] = all[j], all[i] })
+	sibs := all[:2+r.Intn(2)]
+	tails := []string{"/{file}", "/t", "/{f2}/x", "/{file: /[a-z.]+/}"}
+	id := 0
+	add := func(t string) {
+		emit("ADD %d GET %s %s", id, hx(t), wireOfText(t))
+		id++
+	}
+	var reqs []string
+	for _, sb := range sibs {
+		tl := pick(r, tails)
+		add(prefix + "/" + sb.seg + tl)
+		reqs = append(reqs, "/"+strings.Join(inst, "/")+"/"+sb.inst+strings.NewReplacer("{file}", "f.go", "{f2}", "g", "{file: /[a-z.]+/}", "f.go").Replace(tl))
+	}
+	for i, sb := range sibs {
+		through := prefix + "/" + sb.seg
+		if len(names) > 0 {
+			anc := names[r.Intn(len(names))]
+			add(through + pick(r, []string{"/{" + anc + "}", "/sub/{" + anc + "}", "/{" + anc + ": /[0-9]+/}", "/?{" + anc + "}", "/a-{" + anc + "}"}))
+		}
+		if sb.name != "" {
+			add(through + pick(r, []string{"/{" + sb.name + "}", "/sub/{" + sb.name + "}", "/{" + sb.name + ": **}"}))
+		}
+		other := sibs[(i+1)%len(sibs)]
+		if other.name != "" && other.name != sb.name {
+			add(through + pick(r, []string{"/sub/{" + other.name + "}", "/{" + other.name + "}/y", "/s2/{" + other.name + ": /[0-9]+/}"}))
+			reqs = append(reqs, "/"+strings.Join(inst, "/")+"/"+sb.inst+"/sub/9", "/"+strings.Join(inst, "/")+"/"+sb.inst+"/9/y")
+		}
+	}
+	// one more family member registered late, and the first route again (duplicate)
+	add(prefix + "/" + sibs[0].seg + "/late/{z9}")
+	for _, p := range reqs {
+		emit("REQ %s %s", hx("GET"), hx(p))
+		if k.treq {
+			emit("TREQ %s %s", hx("GET"), hx(p))
+		}
+	}
+}
+
 func routerSession1(r *rand.Rand, k routerKnobs, emit Emit) {
 	if !k.rawPaths && k.urlOps == 0 && r.Intn(25) == 0 {
 		wideSession(r, k, emit)
+		return
+	}
+	if !k.rawPaths && k.urlOps == 0 && r.Intn(20) == 0 {
+		deepFamilySession(r, k, emit)
 		return
 	}
 	emit("NEW router")
@@ -215,6 +287,17 @@ func routerSession1(r *rand.Rand, k routerKnobs, emit Emit) {
 		}
 		if k.rawPaths {
 			emit("IREQ %s %s%s", hx(method), hx(path), h)
+		}
+		if k.hdrPct > 0 && r.Intn(3) == 0 {
+			// the SAME method and path again under other headers (and then under the first ones once more): the
+			// outcome is a function of the routes and THIS request, never of what an earlier request of the same
+			// path resolved to
+			h2 := hdrFields(r)
+			emit("REQ %s %s%s", hx(method), hx(path), h2)
+			if k.treq {
+				emit("TREQ %s %s%s", hx(method), hx(path), h2)
+			}
+			emit("REQ %s %s%s", hx(method), hx(path), h)
 		}
 	}
 	for i := 0; i < n; i++ {
